@@ -333,7 +333,7 @@ def main(argv: List[str]) -> int:
     import importlib
 
     mod = importlib.import_module(modname)
-    shard = mod.shards(tier)[shard_index]
+    shard = vf.common.shard_spec(mod, tier, shard_index)
     fn = mod.make_harness(shard["params"])
     try:
         res = explore(
